@@ -358,6 +358,14 @@ def main : IO Unit := do
     (s!"text={repr (t.map UInt8.toNat)} range=({repr a}, {repr b}) ovf={o}",
       showO (match Gen.Fn.str_replace_range o (a, b) [0x58, 0xC3, 0xA9] (t, t.length) with | (s, .ok _) => Outcome.ok (RsS.text s) | (_, .panic) => .panic | (_, .bad w) => .bad w | (_, .err) => .err | (_, .envBad) => .envBad),
       showO (Str.replaceRange o t a b [0x58, 0xC3, 0xA9])))) out
+  let fu := fun (r : RsS.SB × Outcome Unit) => showO (match r with | (s, .ok _) => Outcome.ok (RsS.text s) | (_, .panic) => .panic | (_, .bad w) => .bad w | (_, .err) => .err | (_, .envBad) => .envBad)
+  let css : List (List Char) := [[], ['a'], ['a', 'é', '€', '💩'], ['€', 'b']]
+  out := add (firstDiff "String: Extend<char> / from_iter_in / Extend<&str> / from_str_in" ((texts.flatMap fun t => css.map fun cs => (t, cs)).map fun (t, cs) =>
+    (s!"text={repr (t.map UInt8.toNat)} chars={repr cs}",
+      fu (Gen.Fn.str_extend_chars cs 2 (t, t.length)) ++ "|" ++ fu (Gen.Fn.str_from_iter_in cs (t, t.length)) ++ "|" ++
+        fu (Gen.Fn.str_extend_strs (cs.map Str.encChar) (t, t.length)) ++ "|" ++ fu (Gen.Fn.str_from_str_in (Str.encode cs) (t, t.length)),
+      showO (Outcome.ok (Str.extendChars t cs)) ++ "|" ++ showO (Outcome.ok (Str.fromIter cs)) ++ "|" ++
+        showO (Outcome.ok (Str.extendStrs t (cs.map Str.encChar))) ++ "|" ++ showO (Outcome.ok (Str.encode cs))))) out
   -- boxed.rs step sequences
   let cells : List (List Bx.Cell) := [[], [⟨1, 10⟩], [⟨1, 10⟩, ⟨2, 20⟩, ⟨3, 30⟩]]
   let fx0 : Bx.Fx := {}
